@@ -87,6 +87,7 @@ def expectedComparisons : List (String × String) := [
   ("LEFT", "l < 0"),
   ("LEFT", "l > t"),
   ("RIGHT", "l < 0"),
+  ("RIGHT", "l > t"),
   ("DROP", "v.estack.Len() < 1"),
   ("NIP", "v.estack.Len() < 2"),
   ("XDROP", "n < 0"),
